@@ -201,8 +201,13 @@ func (g mapGenerator) EmitNodeMethodLookupByNode(w io.Writer) {
 		func (n {{ .Type | TypeSymbol }}) LookupByNode(k datamodel.Node) (datamodel.Node, error) {
 			k2, ok := k.({{ .Type.KeyType | TypeSymbol }})
 			if !ok {
-				panic("todo invalid key type error")
-				// 'schema.ErrInvalidKey{TypeName:"{{ .PkgName }}.{{ .Type.Name }}", Key:&_String{k}}' doesn't quite cut it: need room to explain the type, and it's not guaranteed k can be turned into a string at all
+				// Not our own key type (e.g. a string node from another implementation):
+				// anything stringish is looked up by its string, as LookupByString and structs do.
+				ks, err := k.AsString()
+				if err != nil {
+					return nil, err
+				}
+				return n.LookupByString(ks)
 			}
 			v, exists := n.m[*k2]
 			if !exists {
